@@ -138,6 +138,12 @@ impl<'a> Gen<'a> {
     /// a numeric parameter as text (possibly empty), edge-seeking relative to `edge`
     pub fn val(&mut self, edge: usize) -> String {
         if self.huge_pct > 0 && self.r.chance(self.huge_pct, 100) {
+            if self.r.chance(1, 2) {
+                // beyond 32 / 40 / 64 bits but small modulo 2^16: whatever an implementation makes of
+                // such a number, it must make the same of it however the digits arrive
+                let base = *self.r.pick(&[1u128 << 32, 1 << 33, 1 << 40, 1 << 48, 1 << 64, 3 << 63]);
+                return (base + self.r.below(edge + 3) as u128).to_string();
+            }
             return (*self.r.pick(&["65536", "65537", "99999999999", "4294967296", "131071", "18446744073709551616"])).to_string();
         }
         if self.r.chance(1, 40) {
